@@ -45,7 +45,7 @@ def shards(tier, seed):
 
 
 def opts():
-    return gen.Opts(headers=True, multi_headers=True, custom_names=True, port_types=True, services=(1, 3), methods=(1, 4), namespaces=3)
+    return gen.Opts(sub_names=True, headers=True, multi_headers=True, custom_names=True, port_types=True, services=(1, 3), methods=(1, 4), namespaces=3)
 
 
 def universe(seed, uid):
